@@ -97,8 +97,8 @@ m("t1-no-nil-guard", ["C12"], "T1", "entry:acl", "nil-handler guard removed from
 		return nil, fmt.Errorf("command %s requires a subcommand", strings.ToUpper(cmd[0]))
 	}''', ''))
 m("t2-hset-not-sync", ["C07"], "T2", "entry:hset", "HSET registered with Sync:false",
-  ('internal/modules/hash/commands.go', '''If the field does not exist, it is created.`,
-			Sync:              true,''', '''If the field does not exist, it is created.`,
+  ('internal/modules/hash/commands.go', '''Set update each field of the hash with the corresponding value.`,
+			Sync:              true,''', '''Set update each field of the hash with the corresponding value.`,
 			Sync:              false,'''))
 m("p1-union-aliases", ["C13"], "P1", "entry:sunion", "set.Union adds into its first operand again",
   ('internal/modules/set/set.go', 'union := NewSet(sets[0].GetAll())', 'union := sets[0]'))
@@ -266,16 +266,8 @@ m("rc-restore-drops-expiry", ["C03", "C09"], "RC", "set-key-data",
 		)
 
 		// Set up standalone AOF engine'''))
-m("e8-int64-stored", ["C03", "C09", "C07"], "E8", "stored-value:int64", "INCR stores an int64",
-  (GEN, '''	if err := params.SetValues(params.Context, map[string]interface{}{key: newValue}); err != nil {
-		return nil, err
-	}
-
-	// Prepare response''', '''	if err := params.SetValues(params.Context, map[string]interface{}{key: int64(newValue)}); err != nil {
-		return nil, err
-	}
-
-	// Prepare response'''))
+m("e8-int64-stored", ["C03", "C09", "C07"], "E8", "stored-value:int64", "INCR stores an int64 instead of its decimal text",
+  (GEN, 'map[string]interface{}{key: fmt.Sprintf("%d", newValue)}', 'map[string]interface{}{key: newValue}'))
 m("n3-fsm-context-no-database", ["C07", "C20"], "N3", "context-database",
   "raft FSM no longer puts the database into the handler context",
   ('internal/raft/fsm.go', '		ctx = context.WithValue(ctx, "Database", request.Database)\n', ''))
@@ -399,12 +391,12 @@ m("u4-default-user-deletable", ["C11"], "U4", "users-removal", "DeleteUser no lo
 ''', ''))
 m("u5-new-connection-authenticated", ["C11"], "U5", "authenticated-iff-nopassword", "new connections start authenticated",
   (ACL, 'Authenticated: defaultUser.NoPassword,', 'Authenticated: true,'))
-m("l1-subscribers-no-lock", ["C18"], "L1", "pubsub.Channel.subscribers",
-  "Channel.Subscribers reads the table without its lock",
-  ('internal/modules/pubsub/channel.go', '''func (ch *Channel) Subscribers() map[*net.Conn]*resp.Conn {
+m("l1-numsubs-no-lock", ["C18"], "L1", "pubsub.Channel.subscribers",
+  "Channel.NumSubs reads the subscriber table without its lock",
+  ('internal/modules/pubsub/channel.go', '''func (ch *Channel) NumSubs() int {
 	ch.subscribersRWMut.RLock()
 	defer ch.subscribersRWMut.RUnlock()
-''', '''func (ch *Channel) Subscribers() map[*net.Conn]*resp.Conn {
+''', '''func (ch *Channel) NumSubs() int {
 '''))
 
 m("x4-deadline-carried-across-keys", ["C04", "C01"], "X4", "deadline-is-per-key", "setValues keeps the deadline variable across the keys of a multi-key write",
